@@ -18,6 +18,41 @@ fn strip_queue(obs: &str) -> String {
     obs.to_string()
 }
 
+/// a sender that is not the selected parent: the previous parent, another port of the parent's own clock, another
+/// known master, or some other clock
+fn other_sender(rng: &Prng, w: &World, parent: &str) -> Option<([u8; 8], u16)> {
+    let mut cands: Vec<([u8; 8], u16)> = Vec::new();
+    let parse = |t: &str| -> Option<([u8; 8], u16)> {
+        let (c, p) = t.split_once(':')?;
+        let b = crate::out::unhex(c)?;
+        if b.len() != 8 {
+            return None;
+        }
+        let mut a = [0u8; 8];
+        a.copy_from_slice(&b);
+        Some((a, p.parse().ok()?))
+    };
+    if let Some(pp) = parse(&w.prev_parent) {
+        cands.push(pp);
+        cands.push(pp);
+    }
+    if let Some((c, p)) = parse(parent) {
+        cands.push((c, p.wrapping_add(1)));
+        cands.push((c, if p == 1 { 2 } else { 1 }));
+    }
+    for m in &w.masters {
+        cands.push((m.clock, m.port));
+    }
+    for c in CLOCKS.iter() {
+        cands.push((*c, 1));
+    }
+    let cands: Vec<([u8; 8], u16)> = cands.into_iter().filter(|(c, p)| format!("{}:{}", clock_hex(c), p) != parent).collect();
+    if cands.is_empty() {
+        return None;
+    }
+    Some(cands[rng.below(cands.len().min(6) as u64) as usize])
+}
+
 /// builds one frame that must be ignored by port `k` in the current world state; returns (op line, class)
 fn ignored_frame(rng: &Prng, w: &World, k: usize) -> Option<(String, &'static str)> {
     let pv = &w.ports[k - 1];
@@ -34,7 +69,8 @@ fn ignored_frame(rng: &Prng, w: &World, k: usize) -> Option<(String, &'static st
     let now = w.now;
     let (s, n, sub) = split_time(now);
     let best_ann = AnnounceFields { utc: 37, p1: 0, class: 6, acc: 0x17, var: 0, p2: 0, gm: [0, 0, 0, 0, 0, 0, 0, 1], steps: 0, time_source: 0x10 };
-    let choice = rng.below(8);
+    // after a change of parent: the frames of the property's "not from the selected parent" classes more often
+    let choice = if !w.prev_parent.is_empty() && rng.chance(1, 3) { 5 + rng.below(3) } else { rng.below(8) };
     let (clock, port) = parent_id.unwrap_or((CLOCKS[4], 1));
     match choice {
         0..=2 => {
@@ -93,7 +129,7 @@ fn ignored_frame(rng: &Prng, w: &World, k: usize) -> Option<(String, &'static st
         }
         5 | 6 => {
             // Sync / Follow_Up not sent by the selected parent (or to a port that is not slave at all)
-            let other = CLOCKS.iter().map(|c| (*c, 1u16)).find(|(c, p)| format!("{}:{}", clock_hex(c), p) != parent)?;
+            let other = other_sender(rng, w, &parent)?;
             // most of the time the sequence id matches the exchange that is pending on this port
             let pending_seq = pv.last_sync.map(|x| x.1);
             let seq = match pending_seq {
@@ -119,7 +155,7 @@ fn ignored_frame(rng: &Prng, w: &World, k: usize) -> Option<(String, &'static st
                 f.correction = sub;
                 Some((format!("P{k} GEN {}", hex(&f.bytes())), "delayresp-other-requester"))
             } else {
-                let other = CLOCKS.iter().map(|c| (*c, 1u16)).find(|(c, p)| format!("{}:{}", clock_hex(c), p) != parent)?;
+                let other = other_sender(rng, w, &parent)?;
                 let mut f = mk(0x9, other.0, other.1, id).with_ts_pid_body(s, n, w.own_clock, k as u16);
                 f.correction = sub;
                 Some((format!("P{k} GEN {}", hex(&f.bytes())), if is_slave { "delayresp-not-from-parent" } else { "delayresp-to-non-slave" }))
@@ -152,7 +188,7 @@ pub fn generate(out: &mut Out, rng: &Prng, thorough: bool, workdir: &std::path::
             meas: super::gen_inst::MeasOracle::default(),
             ex: InstExec::new(),
             out: &mut base_sink,
-            w: World { own_clock: [0; 8], own_sdo: 0, own_domain: 0, masters: vec![], ports: vec![], parent: String::new(), now: 0, path_trace: false, slave_only: false, own_p1: 0, own_class: 0, init_line: String::new(), port_lines: vec![] },
+            w: World { own_clock: [0; 8], own_sdo: 0, own_domain: 0, masters: vec![], ports: vec![], parent: String::new(), now: 0, path_trace: false, slave_only: false, own_p1: 0, own_class: 0, init_line: String::new(), port_lines: vec![], prev_parent: String::new() },
             ops_in_scenario: 0,
             dead: false,
             on_obs: Some(Box::new(move |_sink: &mut Out, w: &World, op: &str, obs: &str| {
